@@ -47,9 +47,10 @@ func (p *PRNG) Range(lo, hi int64) int64 {
 // Chance is true with probability num/den.
 func (p *PRNG) Chance(num, den int) bool { return p.Intn(den) < num }
 
-func (p *PRNG) PickInt(xs ...int) int       { return xs[p.Intn(len(xs))] }
-func (p *PRNG) PickInt64(xs ...int64) int64 { return xs[p.Intn(len(xs))] }
-func (p *PRNG) PickStr(xs ...string) string { return xs[p.Intn(len(xs))] }
+func (p *PRNG) PickInt(xs ...int) int          { return xs[p.Intn(len(xs))] }
+func (p *PRNG) PickInt64(xs ...int64) int64    { return xs[p.Intn(len(xs))] }
+func (p *PRNG) PickUint64(xs ...uint64) uint64 { return xs[p.Intn(len(xs))] }
+func (p *PRNG) PickStr(xs ...string) string    { return xs[p.Intn(len(xs))] }
 
 // Fork derives an independent stream.
 func (p *PRNG) Fork() *PRNG { return NewPRNG(p.Uint64() ^ 0xa5a5a5a5deadbeef) }
